@@ -302,6 +302,10 @@ func (c *Ctx) checkHashInjective(h *ssa.Function, tname string, hashed ssa.Value
 		// narrowing steps on the way to the bytes: distinct field values collapse
 		for _, op := range l.OpList() {
 			switch op {
+			case "HexToAddress", "HexToHash", "BytesToAddress", "ToLower", "ToUpper", "TrimSpace", "TrimPrefix", "FromHex":
+				for _, f := range l.Fields() {
+					r.Bad("C14.injective", "normalised:"+f, p.Pos(h.Pos()), f+" is normalised by "+op+" before it is hashed while the handler uses the field as reported: reports that spell it differently (and so take different effect) get one claim identifier")
+				}
 			case "Int.Uint64", "Int.Int64", "Int.Int", "Dec.TruncateInt64", "Dec.RoundInt64", "Int.Sign", "Int.BitLen", "Int.Cmp":
 				for _, f := range l.Fields() {
 					r.Bad("C14.injective", "narrowed:"+f, p.Pos(h.Pos()), f+" passes through "+op+" before it is hashed: values that agree in the part that is kept (e.g. modulo 2^64) get the same claim identifier")
